@@ -21,3 +21,49 @@ package spynode
 //@   loop 0 invariant height < -1 ==> len(headers) == 0 && i == startHeight && startHeight == height
 //@   loop 0 invariant forall(k, 0, len(headers), headers[k] != nil && *headers[k] == internalStorage.Hdr(node.blocks, startHeight + k))
 //@   loop 0 invariant internalStorage.InvMem(node.blocks) && internalStorage.InvFull(node.blocks) && sinceloop(stsame()) && (headers == nil || fresharr(headers))
+
+// ---------------------------------------------------------------------------------------
+// Block processing (C02, C03, C04, C06)
+
+// The output fetcher is supplied by the application.
+//@ type OutputFetcher
+//@   callbacks
+
+// Relevance of a transaction to the subscriptions: a function of the transaction and the filter
+// state (IsRelevant itself is specified under C08).
+//@ func (*Node).IsRelevant
+//@   trusted
+//@   opt modifies = none
+
+//@ func containsHash
+//@   serves C06
+//@   loop 0 invariant 0 <= _i && _i <= len(list) && forall(k, 0, _i, list[k] != hash)
+//@   ensures member: result <==> exists(k, 0, len(list), list[k] == hash)
+
+//@ func removeHash
+//@   serves C03
+//@   loop 0 invariant 0 <= _i && _i <= len(list) && forall(k, 0, _i, list[k] != hash)
+//@   ensures found: result0 ==> exists(k, 0, len(list), old(list[k]) == hash)
+//@   ensures absent: !result0 ==> forall(k, 0, len(list), list[k] != hash) && result1 == list
+
+// what every loop of ProcessBlock keeps: the repositories' invariants, the unconfirmed lock held
+// (taken by GetUnconfirmed, released on every exit), the node's wiring unchanged
+//@ spec base(n) = n != nil && same(n.txs, n.memPool, n.blocks, n.state, n.store) && n.txs != nil && n.memPool != nil && n.blocks != nil && n.state != nil
+//@     && handlersstorage.InvU(n.txs) && held(n.txs.unconfirmedLock) && !held(n.txs.blockLock)
+
+// (the mempool calls are summarised by their frames here: what RemoveTransaction and Conflicting do
+// to the conflict index is specified on those functions themselves, C05 / C06)
+//@ func (*Node).ProcessBlock
+//@   serves C02 C04 C06 C03
+//@   opt nomonitor = 1
+//@   opt partial = 1
+//@   opt abstract = SaveTxState FetchTxState fetchSpentOutputs CleanupBlock RemoveTransaction Conflicting
+//@   requires node != nil && node.blocks != nil && node.txs != nil && node.memPool != nil && node.state != nil
+//@   requires handlersstorage.InvU(node.txs) && !held(node.txs.unconfirmedLock) && !held(node.txs.blockLock)
+//@   requires handlersstorage.InvMem(node.blocks) && handlersstorage.InvFull(node.blocks) && handlersstorage.InvTop(node.blocks) && handlersstorage.InvNewest(node.blocks)
+//@   loop * invariant base(node)
+//@   loop 0 invariant base(node)
+//@   loop 4 invariant base(node)
+//@   assert grows_at_tip at call BlockRepository.Add : [C02] header.PrevBlock == BlockHashOf(handlersstorage.Hdr(node.blocks, node.blocks.height)) && !has(node.blocks.heights, BlockHashOf(header)) && header == BlockHeaderOf(block)
+//@   assert valid_before_add at call BlockRepository.Add : [C04] BlockValid(block)
+//@   assert cancels_loser at call HandleTxUpdate loop 3 : [C06] arg2.TxID == confHash && arg2.State.UnSafe && arg2.State.Cancelled
